@@ -502,7 +502,7 @@ class EstimationProviderLinked(EstimationProvider):
         clps: dict[str, xr.DataArray] = {}
         residuals: dict[str, xr.DataArray] = {}
         for dataset_label in self.group.dataset_models:
-            dataset_clps, dataset_residual = [], []
+            dataset_clps, dataset_residual, dataset_positions = [], [], []
             for index in range(self._data_provider.aligned_global_axis.size):
                 group_label = self._data_provider.get_aligned_group_label(index)
                 group_datasets = self._data_provider.group_definitions[group_label]
@@ -510,6 +510,9 @@ class EstimationProviderLinked(EstimationProvider):
                     continue
 
                 dataset_index = group_datasets.index(dataset_label)
+                dataset_positions.append(
+                    self._data_provider.get_aligned_dataset_indices(index)[dataset_index]
+                )
 
                 clp_labels = self._matrix_provider.get_matrix_container(dataset_label).clp_labels
 
@@ -531,6 +534,11 @@ class EstimationProviderLinked(EstimationProvider):
                 )
                 end = start + self._data_provider.get_model_axis(dataset_label).size
                 dataset_residual.append(self._residuals[index][start:end])
+
+            # The aligned global axis is sorted, the global axis of the dataset might not be.
+            dataset_order = np.argsort(dataset_positions)
+            dataset_clps = [dataset_clps[i] for i in dataset_order]
+            dataset_residual = [dataset_residual[i] for i in dataset_order]
 
             model_dimension = self._data_provider.get_model_dimension(dataset_label)
             model_axis = self._data_provider.get_model_axis(dataset_label)
